@@ -1056,10 +1056,20 @@ def apply_text_edit(specs, edit):
             in_str = False
             for li, ln in enumerate(text.split('\n')):
                 starts_in_str = in_str
-                # track multi-line strings (quotes not escaped)
-                q = len([1 for k, c in enumerate(ln) if c == '"' and (k == 0 or ln[k - 1] != '\\')])
-                if q % 2:
-                    in_str = not in_str
+                # track multi-line strings: escapes inside strings, comments outside them
+                k = 0
+                while k < len(ln):
+                    c = ln[k]
+                    if in_str:
+                        if c == '\\':
+                            k += 1
+                        elif c == '"':
+                            in_str = False
+                    elif c == '#':
+                        break
+                    elif c == '"':
+                        in_str = True
+                    k += 1
                 if starts_in_str or not ln.strip() or ln.lstrip().startswith('#') or not ln.startswith('    '):
                     continue
                 cands.append((fi, li))
